@@ -1071,6 +1071,28 @@ func (cpu *CPU) irq() {
  * ====================================================================
  */
 
+// bcdSum adds the packed-BCD numbers a and d (for a subtraction d is the one's complement of the operand) and the
+// carry c digit by digit, applying the decimal correction to each digit and carrying into the next one, as the
+// 65C816 does when the D flag is set. Bit number `bits` of the result is the carry out.
+func bcdSum(a, d, c uint32, bits uint, sub bool) uint32 {
+	var r int32
+	for sh := uint(0); sh < bits; sh += 4 {
+		r = int32(a&(0xF<<sh)) + int32(d&(0xF<<sh)) + int32(c<<sh) + r&(1<<sh-1)
+		if sub {
+			if r < 0x10<<sh {
+				r -= 0x6 << sh
+			}
+		} else if r >= 0xA<<sh {
+			r += 0x6 << sh
+		}
+		c = 0
+		if r >= 0x10<<sh {
+			c = 1
+		}
+	}
+	return uint32(r) & (2<<bits - 1)
+}
+
 // ADC - Add with Carry
 // I'm not sure what I'm doing ;)
 func (cpu *CPU) op_adc() {
@@ -1081,12 +1103,7 @@ func (cpu *CPU) op_adc() {
 		sum := a + d + c
 
 		if cpu.D == 1 {
-			if (sum & 0x0F) > 0x09 {
-				sum = sum + 0x06
-			}
-			if (sum & 0xF0) > 0x90 {
-				sum = sum + 0x60
-			}
+			sum = uint16(bcdSum(uint32(a), uint32(d), uint32(c), 8, false))
 		}
 
 		if sum > 0xFF {
@@ -1111,18 +1128,7 @@ func (cpu *CPU) op_adc() {
 		sum := a + d + c
 
 		if cpu.D == 1 {
-			if (sum & 0x000F) > 0x0009 {
-				sum = sum + 0x0006
-			}
-			if (sum & 0x00F0) > 0x0090 {
-				sum = sum + 0x0060
-			}
-			if (sum & 0x0F00) > 0x0900 {
-				sum = sum + 0x0600
-			}
-			if (sum & 0xF000) > 0x9000 {
-				sum = sum + 0x6000
-			}
+			sum = bcdSum(a, d, c, 16, false)
 		}
 
 		if sum > 0xFFFF {
@@ -1759,12 +1765,7 @@ func (cpu *CPU) op_sbc() {
 		sum := a + d + c
 
 		if cpu.D == 1 {
-			if (sum & 0x0F) > 0x09 {
-				sum = sum + 0x06
-			}
-			if (sum & 0xF0) > 0x90 {
-				sum = sum + 0x60
-			}
+			sum = uint16(bcdSum(uint32(a), uint32(d), uint32(c), 8, true))
 		}
 
 		if sum > 0xFF {
@@ -1789,18 +1790,7 @@ func (cpu *CPU) op_sbc() {
 		sum := a + d + c
 
 		if cpu.D == 1 {
-			if (sum & 0x000F) > 0x0009 {
-				sum = sum + 0x0006
-			}
-			if (sum & 0x00F0) > 0x0090 {
-				sum = sum + 0x0060
-			}
-			if (sum & 0x0F00) > 0x0900 {
-				sum = sum + 0x0600
-			}
-			if (sum & 0xF000) > 0x9000 {
-				sum = sum + 0x6000
-			}
+			sum = bcdSum(a, d, c, 16, true)
 		}
 
 		if sum > 0xFFFF {
